@@ -178,7 +178,9 @@ fn make_jwk_did() -> (String, String) {
     0 => serde_json::json!({"kty":"OKP","crv":"Ed25519","x": x}),
     1 => {
       let y = crate::core::b64::encode(ctx::bytes(32));
-      serde_json::json!({"kty":"EC","crv":"P-256","x": x, "y": y})
+      // curve names as they occur in the wild: the registered ones and the legacy name of secp256k1
+      let crv = ["P-256", "P-256", "secp256k1", "P-256K", "P-384", "P-521"][ctx::choose(6)];
+      serde_json::json!({"kty":"EC","crv": crv, "x": x, "y": y})
     }
     _ => {
       // moduli of 512 to 4096 bits (the encoded DID of the largest is well beyond a kilobyte)
@@ -208,7 +210,10 @@ fn make_jwk_did() -> (String, String) {
     jwk["kid"] = format!("key-{}", ctx::choose(100)).into();
   }
   if ctx::chance(1, 4) {
-    jwk["x5u"] = "https://certs.example/chain.pem".into();
+    // (three of four spellings are not what a URL normaliser prints: explicit default port, no path, upper-case host)
+    jwk["x5u"] = ["https://certs.example/chain.pem", "https://certs.example:443/chain.pem", "https://certs.example", "https://Certs.Example/chain.pem"]
+      [ctx::choose(4)]
+    .into();
   }
   if ctx::chance(1, 4) {
     jwk["x5t"] = crate::core::b64::encode(ctx::bytes(20)).into();
@@ -291,7 +296,29 @@ fn check_doc(prop: &str, ctxt: &str, did: &str, doc: &CoreDocument, exp: &Expect
           }
           _ => false,
         };
-      if !ok {
+      // the one difference being the spelling of the `x5u` member (a URL; held as a parsed URL and written back
+      // normalised) has a signature of its own
+      let only_x5u = doc.id().as_str() == did
+        && methods.len() == 1
+        && match methods[0].data() {
+          identity_verification::MethodData::PublicKeyJwk(jwk) => serde_json::to_value(jwk)
+            .map(|mut v| {
+              v != want && want.get("x5u").is_some() && {
+                v["x5u"] = want["x5u"].clone();
+                v == want
+              }
+            })
+            .unwrap_or(false),
+          _ => false,
+        };
+      if only_x5u {
+        ctx::violation(
+          prop,
+          "C20.did_jwk_expansion",
+          "did-jwk/x5u-member-rewritten",
+          format!("{did}: the expanded document carries the key with another x5u than {jwk_json}: {}", doc.to_json().unwrap_or_default()),
+        );
+      } else if !ok {
         ctx::violation(
           prop,
           "C20.did_jwk_expansion",
